@@ -467,4 +467,37 @@ theorem vfold_val (xs : List UInt8) (acc : BitVec 64) :
   | cons x xs ih => simp only [List.map_cons, List.foldl_cons]; rw [ih, vstep_val]
 
 
+
+/-! ### `bits.LeadingZeros64` (translated to `BitVec.clz`) against the model's `leadingZeros64 u = 64 - bitLen u` -/
+
+theorem bitLen_of_bounds (k n : Nat) (h1 : 2^k ≤ n) (h2 : n < 2^(k+1)) : Marshal.bitLen n = k + 1 := by
+  induction k generalizing n with
+  | zero =>
+    have : n = 1 := by simp at h1 h2; omega
+    subst this
+    rw [Marshal.bitLen]; simp; rw [Marshal.bitLen]; simp
+  | succ k ih =>
+    have hn : n ≠ 0 := by
+      intro h; subst h; have := Nat.two_pow_pos (k+1); omega
+    rw [Marshal.bitLen]; simp only [hn, if_false]
+    have := ih (n / 2) (by rw [Nat.pow_succ] at h1; omega) (by rw [Nat.pow_succ] at h2; omega)
+    omega
+
+theorem clz_bitLen (x : BitVec 64) : (BitVec.clz x).toNat = 64 - Marshal.bitLen x.toNat := by
+  by_cases hx : x = 0#64
+  · subst hx
+    have : BitVec.clz (0#64) = 64#64 := by decide
+    rw [this, Marshal.bitLen]; simp
+  · have hlt : (BitVec.clz x).toNat < 64 := by
+      have := (BitVec.clz_lt_iff_ne_zero (x := x)).mpr hx
+      have := BitVec.lt_def.mp this
+      simpa using this
+    have h1 := BitVec.two_pow_sub_clz_le_toNat_of_ne_zero (x := x) (by decide) hx
+    have h2 := BitVec.toNat_lt_two_pow_sub_clz (x := x)
+    have e : 64 - (BitVec.clz x).toNat = (64 - 1 - (BitVec.clz x).toNat) + 1 := by omega
+    rw [e] at h2
+    have := bitLen_of_bounds _ _ h1 h2
+    omega
+
+
 end GenTie.C12
